@@ -610,6 +610,52 @@ func runC06(r *core.Run) {
 			r.Violate("file", f.Truth.Format+"/"+loader+"/"+kind, msg, c06Witness(r, f, loader))
 		}
 	})
+	// twins: files that agree in everything a cache key might be built from (iCCP name, compressed
+	// length, CRC field; JPEG chunk sizes; WebP chunk size) but carry different profile bytes,
+	// loaded alternately - each load must return its own file's profile
+	{
+		rg := core.NewRNG(r.Seed, "C06", "twins")
+		for k := 0; k < 30; k++ {
+			n := 200 + rg.Intn(3000)
+			pa, pb := profileBytes(rg, n, 2), profileBytes(rg, n, 2)
+			var fa, fb genFile
+			switch k % 3 {
+			case 0:
+				mk := func(p []byte) genFile {
+					s := pngSpecFor(31, 17, 2, 8, 0, core.NewRNG(7, "twin"))
+					s.ICC = &imggen.PNGICC{Name: "twin", Profile: p, Level: 0}
+					s.FixedICCCRC = 0x12345678
+					b, t := s.Build()
+					return genFile{"png twin", b, t}
+				}
+				fa, fb = mk(pa), mk(pb)
+			case 1:
+				mk := func(p []byte) genFile {
+					s := imggen.JPEGSpec{Precision: 8, W: 31, H: 17, Comps: imggen.StdComps(3, 1, 1), Before: []imggen.JPEGSeg{imggen.ICCChunkSeg(1, 1, p)}, ICC: p, ICCState: "ok"}
+					b, t := s.Build()
+					return genFile{"jpeg twin", b, t}
+				}
+				fa, fb = mk(pa), mk(pb)
+			default:
+				mk := func(p []byte) genFile {
+					b, t := imggen.WebPSpec{Kind: "VP8X", W: 31, H: 17, ICC: p}.Build()
+					return genFile{"webp twin", b, t}
+				}
+				fa, fb = mk(pa), mk(pb)
+			}
+			for step := 0; step < 4; step++ {
+				f := fa
+				if step%2 == 1 {
+					f = fb
+				}
+				kind, msg, loader := c06Check(f, []string{loaderFor(f.Truth.Format), "autometa"})
+				r.AddEvals(2)
+				if kind != "" {
+					r.Violate("file", f.Truth.Format+"/"+loader+"/"+kind+"/twins", msg+" (loaded alternately with a twin file that differs only in the profile bytes)", c06Witness(r, c06File{f, "twins", false}, loader))
+				}
+			}
+		}
+	}
 	recheck()
 	for _, c := range results {
 		if c != "" {
